@@ -180,7 +180,7 @@ fn count_shorthands(text: &[u8], local: &mut BTreeMap<String, u64>) {
 }
 
 fn part_a(run: &Run) {
-    let n = run.n(30_000, 3_000_000);
+    let n = run.n(30_000, 12_000_000);
     par_chunks(n, 500, |lo, hi| {
         let mut local: BTreeMap<String, u64> = BTreeMap::new();
         for i in lo..hi {
